@@ -1,5 +1,6 @@
 #!/venv/bin/python
-''' Run every check (quick tier) against every seeded change in /verif/seeded.
+''' Run every check (quick tier) of the affected package family against every seeded change in /verif/seeded
+(results already in seeded/matrix.json are kept; delete the file to start over).
 
 Each run uses tools/mutate.py: a scratch copy of /repo/src under /tmp with the
 patch applied, removed afterwards; /repo itself is never touched.  The result
@@ -32,6 +33,24 @@ def run(seed_dir, check):
     return seed_dir, check, verdict, buckets
 
 
+FAMILIES = {
+    'tcpcl': ['C01', 'C04', 'C07', 'C09', 'C14', 'C15', 'C17', 'C18'],
+    'bp': ['C02', 'C03', 'C05', 'C06', 'C08', 'C10', 'C11', 'C12', 'C16', 'C19'],
+    'udpcl': ['C13', 'C18'],
+    'btpu': ['C20'],
+}
+
+
+def family(seed_dir):
+    ''' Checks that import the package(s) a patch touches (a patch to src/tcpcl cannot change what the BP checks run). '''
+    text = open(os.path.join(VERIF, 'seeded', seed_dir, 'patch.diff')).read()
+    out = set()
+    for pkg, checks in FAMILIES.items():
+        if ' b/src/%s/' % pkg in text:
+            out.update(checks)
+    return out
+
+
 def main():
     args = sys.argv[1:]
     jobs = 4
@@ -51,7 +70,7 @@ def main():
     path = os.path.join(VERIF, 'seeded', 'matrix.json')
     table = json.load(open(path)) if os.path.exists(path) else {}
     with concurrent.futures.ThreadPoolExecutor(jobs) as pool:
-        futs = [pool.submit(run, s, c) for s in seeds for c in checks]
+        futs = [pool.submit(run, s, c) for s in seeds for c in checks if c in family(s) and c not in table.get(s, {})]
         for fut in concurrent.futures.as_completed(futs):
             seed_dir, check, verdict, buckets = fut.result()
             table.setdefault(seed_dir, {})[check] = {'verdict': verdict, 'buckets': buckets}
